@@ -2,12 +2,13 @@
 from .. import cfggen, cfgrun, cfgstream, core, cutter, schemafam as F
 
 RULE = ("accepted texts of the schema family, each with exactly one injected fault of a listed kind at a random line "
-        "(culprit line known by construction; both spellings of an empty section), and the same text with 1..3 "
+        "(culprit line known by construction; both spellings of an empty section; a repeated key is a declared single key or "
+        "a key of a single-valued arbitrary-key map '+', the latter repeated anywhere later in its container), and the same text with 1..3 "
         "balanced ranges moved into %include fragments so that the culprit sits in the main resource or in a fragment at "
         "any include depth (expected: the line number within that resource and that resource's URL); non-trivial = the fault was applicable "
         "and the text is rejected; distinct by (schema, text)")
 
-KINDS = ["junk", "directive", "undefined-subst", "malformed-subst", "unknown-key", "repeat-key", "bad-key", "bad-value",
+KINDS = ["junk", "directive", "undefined-subst", "malformed-subst", "unknown-key", "repeat-key", "repeat-arbitrary-key", "bad-key", "bad-value",
          "unknown-header", "misplaced-header", "missing-required", "missing-required-empty", "surplus-section",
          "stray-close", "mismatched-close"]
 
@@ -121,6 +122,40 @@ def inject(rng, elab, items, kind):
             dup = dup[: len(dup) - len(dup.lstrip())] + dup.split()[0]     # the repeated key alone on its line
         lines.insert(r["line"] + 1, dup)
         return lines, r["line"] + 2, ["plain"], {}
+    if kind == "repeat-arbitrary-key":
+        # a key line that no declared name claims and that therefore goes to the container's single-valued arbitrary-key map
+        # (<key name="+">): the same key once more - same or other spelling of its letter case where the key type folds case,
+        # same, other or no value - at ANY later position of the same container (directly after the first occurrence, after
+        # further keys and whole sub-sections, just before the closing line; at top level: anywhere up to the end of the text).
+        # The culprit is the second occurrence; the section is closed (and its values converted) only later.
+        cands = []
+        for r in kvs:
+            children, kt = cfggen._children_of(elab, r["cont"])
+            if children is None:
+                continue
+            rk = cfggen._norm(kt, r["item"][1])
+            if any(key == rk or (info[0] == "key" and info[1] == rk) for key, info in children):
+                continue
+            plus = [info for key, info in children if info[0] == "key" and info[1] == "+"]
+            if len(plus) != 1 or plus[0][3]:
+                continue
+            inside = [s for s in sects if s["end"] != s["start"] and s["start"] < r["line"] <= s["end"]]
+            lo, hi = (inside[-1]["start"], inside[-1]["end"]) if inside else (-1, len(lines))
+            subs = [s for s in sects if s["end"] != s["start"] and lo < s["start"] and s["end"] < hi]
+            spots = [p for p in range(r["line"] + 1, hi + 1) if not any(s["start"] < p <= s["end"] for s in subs)]
+            cands.append((r, kt, plus[0][5], spots))
+        if not cands:
+            return None
+        r, kt, dt, spots = rng.choice(cands)
+        p = spots[0] if rng.random() < 0.3 else rng.choice(spots)
+        orig = lines[r["line"]]
+        key = r["item"][1]
+        if kt != "identifier" and rng.random() < 0.4:
+            key = rng.choice([cfggen._upper(key), key.lower(), cfggen._case_variant(rng, key)])
+        v = rng.random()
+        val = r["item"][2] if v < 0.4 else "" if v < 0.6 else rng.choice(cfggen.GOOD[dt])
+        lines.insert(p, orig[: len(orig) - len(orig.lstrip())] + key + (" " + val if val else ""))
+        return lines, p + 1, ["plain"], {"distance": p - r["line"], "at-top": r["cont"] is None}
     if kind == "bad-value":
         cands = []
         for r in kvs:
@@ -212,14 +247,16 @@ def _restating_override(rng, lines, culprit):
     plain text: overriding it changes nothing"""
     import re
     prof = cutter.depth_profile(lines)
-    depth, tops = 0, []
+    depth, tops, ckey = 0, [], []
     for i, (l, d) in enumerate(zip(lines, prof)):
         if depth == 0 and d == 0 and i != culprit - 1:
             m = re.match(r"^\s*([A-Za-z][-._A-Za-z0-9]*)\s+(\S(?:.*\S)?)\s*$", l)
             if m and "$" not in m.group(2) and "=" not in m.group(1) and not l.lstrip().startswith(("%", "#", "<")):
                 tops.append((m.group(1), m.group(2)))
+        elif depth == 0 and d == 0 and l.split():
+            ckey.append(l.split()[0])      # the culprit line's own key (a repeated key) is never the one restated
         depth += d
-    keys = [k.lower().replace("_", "-") for k, _ in tops]
+    keys = [k.lower().replace("_", "-") for k, _ in tops] + [k.lower().replace("_", "-") for k in ckey]
     once = [(k, v) for k, v in tops if keys.count(k.lower().replace("_", "-")) == 1 and v == v.strip() and not any(c in v for c in "\x0b\x0c\x1c\x1d\x1e\x85\u2028\u2029")]
     if not once:
         return None
@@ -256,6 +293,9 @@ def run(ctx):
                 ctx.count("inapplicable:" + kind)
                 continue
             lines, culprit, exp, extra = r
+            if kind == "repeat-arbitrary-key":
+                ctx.count("repeat-arbitrary-key:%s:%s" % ("top-level" if extra["at-top"] else "in-section",
+                                                          "adjacent" if extra["distance"] == 1 else "apart"))
             c = cfgstream.Case()
             c.sd, c.real, c.elab, c.hnames = sd, real, elab, hn
             c.lines, c.faults, c.overrides = lines, [kind], ()
@@ -331,7 +371,8 @@ def run(ctx):
             root_url = c.url[: -len(urllib.request.pathname2url("m/main.conf"))]
             want_url = urllib.parse.urljoin(root_url, urllib.request.pathname2url(c.meta["culprit_rel"]))
         if out[2] != c.meta["culprit"] or out[3] != want_url:
-            form = "empty-form" if any(l.strip().endswith("/>") and i + 1 == c.meta["culprit"] for i, l in enumerate(c.lines)) else "line"
+            res_lines = c.lines if c.files is None or c.meta["culprit_rel"] == c.meta.get("main") else c.files.get(c.meta["culprit_rel"], [])
+            form = "empty-form" if any(l.strip().endswith("/>") and i + 1 == c.meta["culprit"] for i, l in enumerate(res_lines)) else "line"
             sig = "C08:%s:%s:%s" % (kind if form == "line" else "any", out[1], "no-position" if out[2] is None else "wrong-position")
             if form == "empty-form":
                 sig = "C08:empty-form:%s:%s" % (out[1], "no-position" if out[2] is None else "wrong-position")
